@@ -23,7 +23,7 @@ RUNS = {"quick": 2400, "thorough": 120000}
 JOBS = {"quick": 8, "thorough": 16}
 SEARCH_SPACE = "point sets x limits/axes/layers x (thread count, partition, interleaving of every load/store of the kernel's output arrays)"
 RULE = ("one run = one workload (points, limits, lin/log axes, resolution, value layers) executed through the real "
-        "histogram2d front-end twice: simulated T=1 and simulated T workers under a seeded schedule; distinct = hash of "
+        "histogram2d front-end twice: simulated T=1 and simulated T workers under a seeded schedule (in half of the runs a third call passes the very same Layer/Array objects again with another call-level operation); distinct = hash of "
         "(workload, conflict signature); non-trivial = at least two simulated workers touched the same output element, "
         "or (T=1 runs) at least one point lies within one bin width of a limit")
 ASSUMPTIONS = [
@@ -137,6 +137,8 @@ def generate(rng, tier):
         "sched": draw_schedule_config(rng, maxT=8),
         # tuning knobs of the kernel (integer literals >= 64, e.g. chunk sizes) divided by this in the simulated runs
         "knob": rng.choice([None, None, 1024, 4096, 16384]),
+        # a second call that re-uses the very same Layer/Array objects with another call-level operation
+        "second_op": rng.choice([None, None, "sum", "mean"]),
     }
     return case
 
@@ -155,8 +157,20 @@ def describe(case):
 # execution
 
 
-def call_frontend(case, sim_factory):
+_LAST = {}
+
+
+def call_frontend(case, sim_factory, reuse=None, call_op="__case__"):
+    """`reuse`: (x, y, layers) objects of an earlier call to pass again; `call_op` overrides the call-level operation."""
     import osyris
+
+    if reuse is not None:
+        x, y, layers = reuse
+        kw = frontend_kwargs(case, case["call_op"] if call_op == "__case__" else call_op)
+        with Seam(MODNAME, KATTR, sim_factory, knob_scale=case.get("knob")) as seam:
+            with np.errstate(all="ignore"):
+                plot = osyris.histogram2d(x, y, *layers, **kw)
+        return plot, seam.calls
 
     x = osyris.Array(values=np.array(case["x"]["pts"], dtype=float), unit=case["xunit"], name="xq")
     y = osyris.Array(values=np.array(case["y"]["pts"], dtype=float), unit="", name="yq")
@@ -173,6 +187,15 @@ def call_frontend(case, sim_factory):
         datas.append(data)
         # bare Arrays are accepted as layers; Vectors only inside a Layer
         layers.append(osyris.core.Layer(data, operation=l["op"]) if (l["op"] is not None or i % 2 or l.get("vector")) else data)
+    kw = frontend_kwargs(case, case["call_op"] if call_op == "__case__" else call_op)
+    with Seam(MODNAME, KATTR, sim_factory, knob_scale=case.get("knob")) as seam:
+        with np.errstate(all="ignore"):
+            plot = osyris.histogram2d(x, y, *layers, **kw)
+    _LAST["objects"] = (x, y, layers)
+    return plot, seam.calls
+
+
+def frontend_kwargs(case, call_op):
     kw = {"resolution": case["res"], "plot": False}
     if case.get("loglog"):
         kw["loglog"] = True
@@ -183,12 +206,9 @@ def call_frontend(case, sim_factory):
             kw[name + "min"] = a["lo"]
         if a["hi"] is not None:
             kw[name + "max"] = a["hi"]
-    if case["call_op"] is not None:
-        kw["operation"] = case["call_op"]
-    with Seam(MODNAME, KATTR, sim_factory, knob_scale=case.get("knob")) as seam:
-        with np.errstate(all="ignore"):
-            plot = osyris.histogram2d(x, y, *layers, **kw)
-    return plot, seam.calls
+    if call_op is not None:
+        kw["operation"] = call_op
+    return kw
 
 
 def make_sim(case, dry):
@@ -551,6 +571,7 @@ def execute(case, stats):
                 b = tuple(np.argwhere(bad)[0])
                 V("values", label, {"effect": lay_ops[k], "when": label}, {"layer": k, "bin": list(b), "got": float(vals[b]), "want": float(exp[b])})
 
+    objects = _LAST.pop("objects", None)
     judge("T=1", p1, c1)
     ks_ = kernel(MODNAME, KATTR)[2]
     if case.get("knob") and ks_ is not None and ks_.knobs:
@@ -566,6 +587,22 @@ def execute(case, stats):
             k1, k2 = np.asarray(c1["result"][1]), np.asarray(c2["result"][1])
             if not np.array_equal(k1, k2):
                 V("schedule-dependence", "counts", {"effect": "counts"}, {"t1": k1.tolist()[:8], "sched": k2.tolist()[:8]})
+    if not viol and case.get("second_op") is not None and objects is not None and c1["result"] is not None:
+        # the same Layer / Array objects passed again with another call-level operation: each call is judged on its own arguments
+        stats.inc("probe.second_call_reusing_layer_objects")
+        try:
+            p3, calls3 = call_frontend(case, lambda: Sim(T=1), reuse=objects, call_op=case["second_op"])
+        except HarnessError:
+            raise
+        except Exception as e:
+            V("frontend-exception", "second-call", {"effect": type(e).__name__}, {"error": f"{type(e).__name__}: {e}"[:300]})
+            return res
+        if len(calls3) == 1:
+            for k, l in enumerate(case["layers"]):
+                lay_ops[k] = l["op"] if l["op"] is not None else case["second_op"]
+            if nl == 0:
+                lay_ops[0] = case["second_op"]
+            judge("second-call", p3, calls3[0])
     return res
 
 
@@ -578,7 +615,7 @@ def measure(case):
     sw = sum(1 for a, b in zip(dec, dec[1:]) if a != b) if dec else 10**6
     part = {"static-equal": 0, "static-uneven": 1, "dynamic": 2}[case["sched"]["partition"]["kind"]]
     nonfin = sum(1 for v in case["x"]["pts"] + case["y"]["pts"] if not math.isfinite(v))
-    return (case["n"], len(case["layers"]), case["sched"]["T"], part, case["res"], nonfin, int(bool(case.get("knob"))), sw, len(dec) if dec else 10**6)
+    return (case["n"], len(case["layers"]), case["sched"]["T"], part, case["res"], nonfin, int(bool(case.get("knob"))), int(case.get("second_op") is not None), sw, len(dec) if dec else 10**6)
 
 
 def canonical(case, viol):
@@ -648,6 +685,8 @@ def reductions(case, viol):
         yield from _resched(c)
     if case.get("knob"):
         yield dict(case, knob=None)
+    if case.get("second_op") is not None:
+        yield dict(case, second_op=None)
     # 4. non-finite entries -> finite
     for a in ("x", "y"):
         for i, v in enumerate(case[a]["pts"]):
